@@ -55,7 +55,7 @@ def project(base):
         p = os.path.join(base, d)
         if os.path.isdir(p):
             for f in os.listdir(p):
-                if os.path.isfile(os.path.join(p, f)):
+                if os.path.isfile(os.path.join(p, f)) and f.endswith(".log"):
                     files.add((d, _fileclass(f)))
     lv = logging.getLogger("bldfm").level
     return {
@@ -159,4 +159,159 @@ def run(chk):
             calls += replay(chk, h, "simulated history %d" % i)
     chk.extra["lifecycle_histories_replayed"] = len(chosen) + len(sims)
     chk.extra["lifecycle_calls_compared"] = calls
+    return len(chosen) + len(sims)
+
+
+# ------------------------------------------------------------------------------------------------ spec/Cli.tla
+CLI_CONFIGS = {
+    1: dict(nt=1, ns=2, threads=1, workers=1, cache=False, labels="distinct"),
+    2: dict(nt=2, ns=2, threads=4, workers=2, cache=False, labels="repeated"),
+    3: dict(nt=2, ns=1, threads=2, workers=1, cache=True, labels="index"),
+}
+_PLOT = re.compile(r"^footprint_T(\d+)_t(.*)\.png$")
+
+
+def _cli_yaml(cid):
+    c = CLI_CONFIGS[cid]
+    met = {"ustar": [0.3 + 0.05 * s for s in range(c["ns"])], "mol": -100.0, "wind_speed": 3.0, "wind_dir": [200.0 + 40.0 * s for s in range(c["ns"])]}
+    if c["labels"] == "distinct":
+        met["timestamps"] = ["L%d" % (s + 1) for s in range(c["ns"])]
+    elif c["labels"] == "repeated":
+        met["timestamps"] = ["L1"] * c["ns"]
+    return {
+        "domain": {"nx": 8, "ny": 6, "xmax": 160.0, "ymax": 90.0, "nz": 4, "modes": [8, 6], "halo": 20.0, "ref_lat": 50.0, "ref_lon": 11.0},
+        "towers": [{"name": "T%d" % (i + 1), "lat": 50.0003 + 0.0002 * i, "lon": 11.0006 + 0.0003 * i, "z_m": 4.0} for i in range(c["nt"])],
+        "met": met,
+        "solver": {"footprint": True, "precision": "double", "closure": "MOST"},
+        "parallel": {"num_threads": c["threads"], "max_workers": c["workers"], "use_cache": c["cache"]},
+    }
+
+
+def _label_token(text):
+    if text.startswith("L"):
+        return ["lab", int(text[1:])]
+    return ["idx", int(text)]
+
+
+def cli_project(base, solved):
+    from bldfm import config as rc
+
+    p = project(base)
+    p["settings"] = {"threads": rc.NUM_THREADS, "workers": rc.MAX_WORKERS, "cache": bool(rc.USE_CACHE)}
+    p["solved"] = [list(x) for x in solved]
+    plots = []
+    d = os.path.join(base, "plots")
+    if os.path.isdir(d):
+        for f in os.listdir(d):
+            m = _PLOT.match(f)
+            plots.append([int(m.group(1)), _label_token(m.group(2))] if m else ["?", f])
+    p["plots"] = sorted(plots, key=json.dumps)
+    return p
+
+
+def _cli_expected(post):
+    e = _expected(post)
+    e["settings"] = {"threads": post["settings"]["threads"], "workers": post["settings"]["workers"], "cache": bool(post["settings"]["cache"])}
+    e["solved"] = [list(x) for x in post["solved"]]
+    e["plots"] = sorted(([p[0], list(p[1])] for p in post["plots"]), key=json.dumps)
+    return e
+
+
+def cli_replay(chk, hist, label):
+    import argparse
+
+    import yaml
+
+    import bldfm
+    import bldfm.cli as cli
+    from bldfm import config as rc
+    from bldfm.utils import setup_logging
+
+    base = tempfile.mkdtemp(prefix="cli_")
+    here = os.getcwd()
+    saved = (rc.NUM_THREADS, rc.MAX_WORKERS, rc.USE_CACHE)
+    real_single = cli.run_bldfm_single
+    solved = []
+    current = []
+
+    def recording(config, tower, met_index=0, **kw):
+        current.append((int(tower.name[1:]), met_index + 1))
+        return real_single(config, tower, met_index=met_index, **kw)
+
+    n = 0
+    try:
+        os.chdir(base)
+        _reset()
+        rc.NUM_THREADS, rc.MAX_WORKERS, rc.USE_CACHE = 1, 1, False
+        cli.run_bldfm_single = recording
+        for cid in CLI_CONFIGS:
+            with open("cfg%d.yaml" % cid, "w") as fh:
+                yaml.safe_dump(_cli_yaml(cid), fh)
+        for k, c in enumerate(hist):
+            raised = None
+            what = {x: c[x] for x in ("call", "cfg", "dry", "plot", "dir", "file", "level")}
+            try:
+                if c["call"] == "cli":
+                    del current[:]
+                    cli.cmd_run(argparse.Namespace(config="cfg%d.yaml" % c["cfg"], dry_run=bool(c["dry"]), plot=bool(c["plot"])))
+                    solved = list(current)
+                elif c["call"] == "userset":
+                    rc.NUM_THREADS = int(c["cfg"])
+                else:
+                    setup_logging(log_dir=c["dir"], **_kwargs(c))
+            except Exception as ex:  # noqa: BLE001
+                raised = ex
+            n += 1
+            if raised is not None:
+                chk.drift_note("cli %s: call %d (%s) raised %r, the specification says it returns" % (label, k + 1, json.dumps(what), raised))
+                return n
+            got, want = cli_project(base, solved), _cli_expected(c["post"])
+            if got != want:
+                diff = {x: (got[x], want[x]) for x in got if got[x] != want[x]}
+                chk.drift_note("cli %s: after call %d (%s) the process state differs from the specification's (real, specified): %s" % (label, k + 1, json.dumps(what), json.dumps(diff, default=list)))
+                return n
+    finally:
+        cli.run_bldfm_single = real_single
+        rc.NUM_THREADS, rc.MAX_WORKERS, rc.USE_CACHE = saved
+        try:
+            import matplotlib.pyplot as plt
+
+            plt.close("all")
+        except Exception:
+            pass
+        _reset()
+        os.chdir(here)
+        shutil.rmtree(base, ignore_errors=True)
+    return n
+
+
+def run_cli(chk):
+    t = tier()
+    r = run_tlc("Cli", "MC_Cli", workers=4)
+    chk.add_tlc("MC_Cli", r)
+    if not r.ok:
+        raise MachineryError("MC_Cli: %s violated" % r.violated)
+    r2 = run_tlc("Cli", "MC_Cli_deep", workers=8, timeout=900)
+    chk.add_tlc("MC_Cli_deep", r2)
+    if not r2.ok:
+        raise MachineryError("MC_Cli_deep: %s violated" % r2.violated)
+    hists = sorted((e["hist"] for e in r.emitted), key=lambda h: json.dumps(h, sort_keys=True))
+    if not hists:
+        raise MachineryError("MC_Cli emitted no history")
+    step = 4 if t == "thorough" else 31
+    chosen = hists[seed() % step :: step]
+    nsim = 40 if t == "thorough" else 6
+    rs = run_tlc("Cli", "MC_Cli_sim", workers=1, simulate="num=%d" % nsim, extra=["-depth", "6", "-seed", str(seed())], name="MC_Cli_sim", timeout=600)
+    chk.add_tlc("MC_Cli_sim", rs)
+    if not rs.ok:
+        raise MachineryError("MC_Cli_sim: %s violated" % rs.violated)
+    sims = [e["hist"] for e in rs.emitted]
+    calls = 0
+    with contextlib.redirect_stderr(io.StringIO()):
+        for i, h in enumerate(chosen):
+            calls += cli_replay(chk, h, "two-call history %d" % i)
+        for i, h in enumerate(sims):
+            calls += cli_replay(chk, h, "simulated history %d" % i)
+    chk.extra["cli_histories_replayed"] = len(chosen) + len(sims)
+    chk.extra["cli_calls_compared"] = calls
     return len(chosen) + len(sims)
